@@ -352,9 +352,34 @@ func ruleFieldDispatch(c *Ctx) []Ob {
 				}
 			}
 		}
+		// the index may be built by a constructor helper (make + fill) whose result is stored
+		var ctor *ssa.Function
+		var ctorCall *ssa.Call
+		if mk == nil {
+			for _, b := range ff.Blocks {
+				for _, ins := range b.Instrs {
+					if st, ok := ins.(*ssa.Store); ok && path(st.Addr) == d+".fieldIdx" {
+						if call, ok := st.Val.(*ssa.Call); ok && call.Call.StaticCallee() != nil && call.Call.StaticCallee().Blocks != nil {
+							h := call.Call.StaticCallee()
+							for _, hb := range h.Blocks {
+								if ret, ok := hb.Instrs[len(hb.Instrs)-1].(*ssa.Return); ok && len(ret.Results) == 1 {
+									if m, ok := ret.Results[0].(*ssa.MakeSlice); ok {
+										mk, ctor, ctorCall = m, h, call
+									}
+								}
+							}
+						}
+					}
+				}
+			}
+		}
 		isIdxSlice := func(v ssa.Value) bool { return mk != nil && v == ssa.Value(mk) || path(v) == d+".fieldIdx" }
 		fillAll, setIdx, maxSet := false, false, false
-		for _, b := range ff.Blocks {
+		scan := ff.Blocks
+		if ctor != nil {
+			scan = append(append([]*ssa.BasicBlock{}, ff.Blocks...), ctor.Blocks...)
+		}
+		for _, b := range scan {
 			for _, ins := range b.Instrs {
 				st, ok := ins.(*ssa.Store)
 				if !ok {
@@ -386,8 +411,18 @@ func ruleFieldDispatch(c *Ctx) []Ob {
 		}
 		if okMk {
 			// ... on every path: no return of fromDefsFields is reachable without the index having been installed
+			site := mk.Block()
+			if ctorCall != nil {
+				site = ctorCall.Block()
+				// the constructor has a single make, returned on every path
+				for _, hb := range ctor.Blocks {
+					if ret, ok := hb.Instrs[len(hb.Instrs)-1].(*ssa.Return); ok && (len(ret.Results) != 1 || ret.Results[0] != ssa.Value(mk)) {
+						okMk = false
+					}
+				}
+			}
 			for _, b := range ff.Blocks {
-				if _, ok := b.Instrs[len(b.Instrs)-1].(*ssa.Return); ok && !mk.Block().Dominates(b) && mk.Block() != b {
+				if _, ok := b.Instrs[len(b.Instrs)-1].(*ssa.Return); ok && !site.Dominates(b) && site != b {
 					okMk = false
 				}
 			}
